@@ -210,6 +210,11 @@ def check_one(mtj, system, order=None):
         if again != seq or list(terms) != list(terms):
             bad('one-shot-result', 'the returned transition sequence reads %r the first time and %r the second time' % (seq[:6], again[:6]),
                 '%s: the emitted sequence can only be read once (words and tags file written from the same result differ)' % system)
+        # the tree is the caller's: asked again for the same (untouched) tree object, the system gives the same sequence
+        terms2, trans2 = getattr(transitions, system)(t)
+        if [str(x) for x in trans2] != seq or list(terms2) != list(terms):
+            bad('second-call', 'the second call on the same tree object gives %r, the first gave %r' % ([str(x) for x in trans2][:8], seq[:8]),
+                '%s: a second call on the same tree object gives another sequence' % system)
         # the result is a value: the caller goes on working with the tree (here: every constituent is relabelled in
         # place), the sequence obtained before must still read the same
         stack = [t]
@@ -295,6 +300,9 @@ def check_cli(system, shapes_n):
             argv += ['--src-enc', 'iso-8859-1']
         if use_pos:
             argv += ['--dest-opts', 'pos']
+        with open(dest, 'w', encoding='utf-8') as f:
+            # the destination exists already (an older, longer file): it must be replaced
+            f.write('leftover ||| SHIFT of an earlier run\n' * 5000)
         st, so, se, exc = cli.run(argv)
         if st != 0:
             bad('cli-failed', 'exit status %r %s' % (st, cli.describe(exc)))
